@@ -688,4 +688,191 @@ theorem spec_parseInputObjectTypeExtension (n : Nat) :
     · simp only [ExtendsSomething]
       cases dirs <;> cases fields <;> simp_all
 
+/-! ### schema definition and extension -/
+
+theorem spec_parseOperationTypeDefinition :
+    Spec parseOperationTypeDefinition (Eats fun o u => tk u = printOpType o ∧ isOperationType o.op) := by
+  unfold parseOperationTypeDefinition
+  refine (Spec.bind spec_peekPos fun pos => Spec.bind spec_parseOperationType fun op =>
+    Spec.bind (spec_punct .colon (by decide) (by decide) rfl) fun _ => Spec.bind spec_parseName fun ty =>
+    Spec.pure _).mono ?_
+  rintro o a a'' _ ⟨pos, a1, ⟨rfl, _⟩, op, a2, hop, _, a3, ⟨u2, h2, p2⟩, ty, a4, ⟨u3, h3, p3⟩, rfl, rfl⟩
+  obtain ⟨t1, e1, e2, e3⟩ := hop rfl
+  exact ⟨_, (Ate.peeked a).trans (e1.trans (h2.trans h3)), by simp [printOpType, e2, p2, p3], e3⟩
+
+/-- the `{ RootOperationTypeDefinition+ }` block, absent for the empty list -/
+def POpTypes (ots : List OpTypeDef) (u : List Token) : Prop :=
+  tk u = printBlock printOpType ots ∧ ∀ o ∈ ots, isOperationType o.op
+
+theorem spec_opTypesBlock (n : Nat) :
+    Spec (pSome .braceL .braceR n parseOperationTypeDefinition)
+      (fun ots a a' => Eats POpTypes ots a a' ∧ (a.σ.head.kind = .braceL → ots ≠ [])) := by
+  refine (spec_pSome .braceL .braceR (by decide) (by decide) (by decide) (by decide) n
+    spec_parseOperationTypeDefinition).mono ?_
+  rintro ots a a' _ ⟨hb, hne⟩
+  obtain ⟨u, h1, h2, h3, _⟩ := bracketed_some rfl rfl hb hne
+  exact ⟨⟨u, h1, by simpa [printBlock] using h2, h3⟩, hne⟩
+
+theorem printDirectives_ne {ds : List Directive} (h : ds ≠ []) : printDirectives ds ≠ [] := by
+  cases ds with
+  | nil => exact absurd rfl h
+  | cons d r => simp [printDirectives, printDirective]
+
+theorem printBlock_ne {α : Type} (f : α → List Tok) {xs : List α} (h : xs ≠ []) : printBlock f xs ≠ [] := by
+  cases xs with
+  | nil => exact absurd rfl h
+  | cons d r => simp [printBlock]
+
+/-- the position recorded after a keyword is that of the next consumed token -/
+theorem pos_mem {a a' : AS} {u : List Token} {pos : Pos} (h : Ate a a' u) (hu : u ≠ []) (hpos : pos.start = a.σ.head.start) :
+    ∃ t ∈ u, pos.start = t.start := by
+  cases u with
+  | nil => exact absurd rfl hu
+  | cons t rest => exact ⟨t, by simp, by rw [hpos, h.head]⟩
+
+/-- `schema Directives? { … }` (what follows the description of a schema definition) -/
+def PSchemaDef (desc : Bytes) (sd : SchemaDef) (u : List Token) : Prop :=
+  sd.desc = desc ∧ tk u = tKw "schema" :: (printDirectives sd.dirs ++ (tP .braceL :: sd.opTypes.flatMap printOpType ++ [tP .braceR])) ∧
+    WFSchemaDef sd ∧ ∃ t ∈ u, sd.pos.start = t.start
+
+theorem spec_parseSchemaDefinition (n : Nat) (desc : Bytes) :
+    Spec (parseSchemaDefinition n desc) (Eats (PSchemaDef desc)) := by
+  unfold parseSchemaDefinition
+  refine (Spec.bind (spec_expectKeyword kwSchema) fun _ => Spec.bind spec_peekPos fun pos =>
+    Spec.bind (spec_parseDirectives n true) fun dirs => Spec.bind spec_peek fun t => Spec.ite
+      (fun _ => Spec.of_dead_bind (R := fun _ _ _ => False) unexpectedError_dead)
+      (fun _ => Spec.bind (spec_opTypesBlock n) fun ots => Spec.pure _)).mono ?_
+  rintro sd a a'' _ ⟨tkw, a1, ⟨u0, h0, rfl, k0, v0⟩, pos, a2, ⟨rfl, hpos⟩, dirs, a3, ⟨u1, h1, p1⟩, t, a4, ⟨rfl, rfl⟩,
+    ⟨_, hf⟩ | ⟨hk, ots, a5, ⟨⟨u2, h2, p2⟩, hne⟩, rfl, rfl⟩⟩
+  · exact hf.elim
+  · simp only [ne_eq, Decidable.not_not] at hk
+    have hots : ots ≠ [] := hne hk
+    have hb : printBlock printOpType ots = tP .braceL :: ots.flatMap printOpType ++ [tP .braceR] := by
+      cases ots with
+      | nil => exact absurd rfl hots
+      | cons o r => simp [printBlock]
+    have hrest : Ate { a1 with pk := true } a'' (u1 ++ u2) := h1.trans ((Ate.peeked a3).trans h2)
+    refine ⟨_, h0.trans ((Ate.peeked a1).trans hrest), rfl, ?_, ⟨p1.2 rfl, hots, p2.2⟩, ?_⟩
+    · simp [kwTok k0 v0, p1.1, p2.1, hb]
+    · obtain ⟨t', ht', hs⟩ := pos_mem hrest (by
+        intro e
+        have : tk (u1 ++ u2) = [] := by rw [e]; rfl
+        simp [p2.1, hb] at this) hpos
+      exact ⟨t', by simp at ht' ⊢; exact .inr ht', hs⟩
+
+theorem derives_schemaDef (sd : SchemaDef) (h : WFSchemaDef sd) {tsD : List Tok}
+    (hD : Derives gql (.opt (.nt .description)) tsD (printDesc sd.desc)) :
+    Derives gql (.nt .schemaDefinition)
+      (tsD ++ tKw "schema" :: (printDirectives sd.dirs ++ (tP .braceL :: sd.opTypes.flatMap printOpType ++ [tP .braceR])))
+      (printSchemaDef sd) := by
+  obtain ⟨hd, hne, hops⟩ := h
+  have := Derives.nt (n := NT.schemaDefinition) (Derives.seq hD (L.kwCons "schema"
+    (L.seq (L_optDirectives true sd.dirs fun _ => hd) (L_schemaOps sd.opTypes hne hops))))
+  exact this.cast (by simp) (by simp [printSchemaDef])
+
+/-- `schema Directives? { … }?` of a schema extension (after `extend`) -/
+def PSchemaExt (sd : SchemaDef) (u : List Token) : Prop :=
+  tKw "extend" :: tk u = printSchemaExt sd ∧ WFSchemaExt sd ∧ ∃ t ∈ u, sd.pos.start = t.start
+
+theorem spec_parseSchemaExtension (n : Nat) : Spec (parseSchemaExtension n) (Eats PSchemaExt) := by
+  unfold parseSchemaExtension
+  refine (Spec.bind (spec_expectKeyword kwSchema) fun _ => Spec.bind spec_peekPos fun pos =>
+    Spec.bind (spec_parseDirectives n true) fun dirs => Spec.bind (spec_opTypesBlock n) fun ots => Spec.ite
+      (fun _ => Spec.of_dead_bind (R := fun _ _ _ => False) unexpectedError_dead) (fun _ => Spec.pure _)).mono ?_
+  rintro sd a a'' _ ⟨tkw, a1, ⟨u0, h0, rfl, k0, v0⟩, pos, a2, ⟨rfl, hpos⟩, dirs, a3, ⟨u1, h1, p1⟩,
+    ots, a5, ⟨⟨u2, h2, p2⟩, _⟩, ⟨_, hf⟩ | ⟨hc, rfl, rfl⟩⟩
+  · exact hf.elim
+  · have hsome : dirs ≠ [] ∨ ots ≠ [] := by
+      cases dirs <;> cases ots <;> simp_all
+    have hrest : Ate { a1 with pk := true } a'' (u1 ++ u2) := h1.trans h2
+    refine ⟨_, h0.trans ((Ate.peeked a1).trans hrest), ?_, ⟨p1.2 rfl, hsome, p2.2⟩, ?_⟩
+    · simp [printSchemaExt, kwTok k0 v0, p1.1, p2.1]
+    · obtain ⟨t', ht', hs⟩ := pos_mem hrest (by
+        intro e
+        have : tk (u1 ++ u2) = [] := by rw [e]; rfl
+        rw [tk_append, p1.1, p2.1] at this
+        rcases hsome with h | h
+        · exact printDirectives_ne h (List.append_eq_nil_iff.1 this).1
+        · exact printBlock_ne _ h (List.append_eq_nil_iff.1 this).2) hpos
+      exact ⟨t', by simp at ht' ⊢; exact .inr ht', hs⟩
+
+/-! ### directive definitions -/
+
+/-- the part of a directive definition after the description -/
+def PDirectiveDef (desc : Bytes) (dd : DirectiveDef) (u : List Token) : Prop :=
+  dd.desc = desc ∧ WFDirectiveDef dd ∧ (∃ t ∈ u, dd.pos.start = t.start) ∧
+    ∀ {tsD : List Tok}, Derives gql (.opt (.nt .description)) tsD (printDesc desc) →
+      Derives gql (.nt .directiveDefinition) (tsD ++ tk u) (printDirectiveDef dd)
+
+/-- the part of `parseDirectiveDefinition` after `repeatable?` -/
+def directiveTail (n : Nat) (desc : Bytes) (pos : Pos) (name : Name) (args : List ArgDef) (rep : Bool) : Prog DirectiveDef := do
+  let _ ← expectKeyword kwOn
+  let locs ← parseDirectiveLocations n
+  pure { desc := desc, name := name, args := args, locations := locs, repeatable := rep, pos := pos }
+
+theorem parseDirectiveDefinition_eq (n : Nat) (desc : Bytes) :
+    parseDirectiveDefinition n desc = (do
+      let _ ← expectKeyword kwDirective
+      let _ ← expect .at
+      let pos ← peekPos
+      let name ← parseName
+      let args ← parseArgumentDefs n
+      let pk ← peek
+      if pk.kind = .name ∧ pk.value = kwRepeatable then do
+        let _ ← skip .name
+        directiveTail n desc pos name args true
+      else directiveTail n desc pos name args false) := rfl
+
+theorem spec_directiveTail (n : Nat) (desc : Bytes) (pos : Pos) (name : Name) (args : List ArgDef) (rep : Bool) :
+    Spec (directiveTail n desc pos name args rep) (Eats fun dd u => ∃ locs ul,
+      dd = { desc := desc, name := name, args := args, locations := locs, repeatable := rep, pos := pos } ∧
+      tk u = tKw "on" :: tk ul ∧ locs ≠ [] ∧ (∀ l ∈ locs, l ∈ Gql.Grammar.directiveLocationNames) ∧
+      Derives gql (.nt .directiveLocations) (tk ul) (printSep .pipe locs)) := by
+  unfold directiveTail
+  refine (Spec.bind (spec_expectKeyword kwOn) fun _ => Spec.bind (spec_parseDirectiveLocations n) fun locs =>
+    Spec.pure _).mono ?_
+  rintro dd a a'' _ ⟨ton, a1, ⟨u0, h0, rfl, k0, v0⟩, locs, a2, ⟨u1, h1, p1⟩, rfl, rfl⟩
+  exact ⟨_, h0.trans h1, locs, u1, rfl, by simp [kwTok k0 v0], p1⟩
+
+theorem derives_directiveDef (dd : DirectiveDef) {tsD tsA tsL : List Tok}
+    (hD : Derives gql (.opt (.nt .description)) tsD (printDesc dd.desc))
+    (hA : Derives gql (.opt (.nt .argumentsDefinition)) tsA (printArgDefs dd.args))
+    (hL : Derives gql (.nt .directiveLocations) tsL (printSep .pipe dd.locations)) :
+    Derives gql (.nt .directiveDefinition)
+      (tsD ++ tKw "directive" :: tP .at :: tName dd.name :: (tsA ++ ((if dd.repeatable then [tKw "repeatable"] else []) ++
+        tKw "on" :: tsL)))
+      (printDirectiveDef dd) := by
+  have hrep : L (.opt (Grammar.kw (str "repeatable"))) (if dd.repeatable then [tKw "repeatable"] else []) := by
+    split
+    · exact L.optSome (L.kw "repeatable")
+    · exact L.optNone
+  have := Derives.nt (n := NT.directiveDefinition) (Derives.seq hD (D.kwCons "directive" (D.kindCons .at
+    (D.nameCons dd.name (Derives.seq hA (Derives.seq hrep (D.kwCons "on" hL)))))))
+  exact this.cast (by simp) (by simp [printDirectiveDef])
+
+theorem spec_parseDirectiveDefinition (n : Nat) (desc : Bytes) :
+    Spec (parseDirectiveDefinition n desc) (Eats (PDirectiveDef desc)) := by
+  rw [parseDirectiveDefinition_eq]
+  refine (Spec.bind (spec_expectKeyword kwDirective) fun _ => Spec.bind (spec_punct .at (by decide) (by decide) rfl) fun _ =>
+    Spec.bind spec_peekPos fun pos => Spec.bind spec_parseName' fun name => Spec.bind (spec_parseArgumentDefs n) fun args =>
+    Spec.bind spec_peek fun pk => Spec.ite
+      (fun _ => Spec.bind (spec_skip .name (by decide) (by decide)) fun _ => spec_directiveTail n desc pos name args true)
+      (fun _ => spec_directiveTail n desc pos name args false)).mono ?_
+  rintro dd a a'' _ ⟨tkw, a1, ⟨u0, h0, rfl, k0, v0⟩, _, a2, ⟨u1, h1, p1⟩, pos, a3, ⟨rfl, hpos⟩, name, a4,
+    ⟨u2, h2, tnm, rfl, k2, rfl, _⟩, args, a5, ⟨u3, h3, p3⟩, pk, a6, ⟨rfl, rfl⟩,
+    ⟨hk, b, a7, hs, u5, h5, locs, ul, rfl, q1, q2, q3, q4⟩ | ⟨hk, u5, h5, locs, ul, rfl, q1, q2, q3, q4⟩⟩
+  · rcases hs with ⟨_, trep, g, kr, _⟩ | ⟨_, hkn, _⟩
+    · have hrep : Tok.ofToken trep = tKw "repeatable" := by
+        have : trep = a5.σ.head := (g.head).symm
+        rw [this]; simp [Tok.ofToken, tKw, hk.1, hk.2, kwRepeatable]
+      refine ⟨_, h0.trans (h1.trans ((Ate.peeked a2).trans (h2.trans (h3.trans ((Ate.peeked a5).trans (g.trans h5)))))),
+        rfl, ⟨p3.2, q2, q3⟩, ⟨tnm, by simp, by rw [hpos]; exact congrArg Token.start h2.head⟩, fun hD => ?_⟩
+      exact (derives_directiveDef (dd := ⟨desc, tnm.value, args, locs, true, pos⟩) hD p3.1.opt q4).cast
+        (by simp [kwTok k0 v0, p1, ofToken_name k2, hrep, q1]) rfl
+    · exact absurd hk.1 hkn
+  · refine ⟨_, h0.trans (h1.trans ((Ate.peeked a2).trans (h2.trans (h3.trans ((Ate.peeked a5).trans h5))))),
+      rfl, ⟨p3.2, q2, q3⟩, ⟨tnm, by simp, by rw [hpos]; exact congrArg Token.start h2.head⟩, fun hD => ?_⟩
+    exact (derives_directiveDef (dd := ⟨desc, tnm.value, args, locs, false, pos⟩) hD p3.1.opt q4).cast
+      (by simp [kwTok k0 v0, p1, ofToken_name k2, q1]) rfl
+
 end Gql.Parser
